@@ -135,7 +135,7 @@ pub fn cases_for(lm: &LinearModel, fam: &str, variants: &gen_lp::Variants, out: 
             _ => None,
         }.unwrap_or_default();
         if matches!(o, Outcome::Hang) { c.req.clear(); }
-        c.oracle = format!("verdict {} {} {} {}", lms, kind.name(), res, sx::q(&gen_lp::err_msg(&o)));
+        c.oracle = format!("verdict {} {} {} {} {}", lms, kind.name(), res, sx::q(&gen_lp::err_msg(&o)), gen_lp::raw_status_of_req(&c.req));
         c.tags = vec![
             format!("family-{}", fam),
             format!("solver-{}", kind.name()),
@@ -178,6 +178,14 @@ pub fn seeded() -> Vec<(LinearModel, &'static str)> {
     m.add_constraint(vec![1.0, 0.0], Comparison::GreaterOrEqual, 2.0);
     m.set_objective(vec![0.0, 1.0], OptimizationType::Min);
     v.push((m, "seeded-primal-dual-infeasible"));
+    // clarabel: `Solved` on an unbounded model with a moderate point and diverging duals (found on main, seed 1)
+    let mut m = LinearModel::new();
+    m.add_variable("v0", free()); m.add_variable("v1", VariableType::NonNegativeReal(1.0, 2.0));
+    m.add_variable("v2", VariableType::NonNegativeReal(2.0, 4.0)); m.add_variable("v3", free());
+    m.add_constraint(vec![1.0, 3.0, -1.0, 3.0], Comparison::Equal, -3.0);
+    m.add_constraint(vec![1.0, -1.0, -1.0, 3.0], Comparison::Equal, -11.0);
+    m.set_objective(vec![0.0, -3.0, -3.0, -3.0], OptimizationType::Min);
+    v.push((m, "seeded-clarabel-solved-unbounded"));
     // clarabel: `Solved` with a diverging point on an unbounded model (found by the thorough tier)
     let mut m = LinearModel::new();
     m.add_variable("v0", free()); m.add_variable("v1", free()); m.add_variable("v2", free()); m.add_variable("v3", nonneg());
